@@ -35,6 +35,9 @@ type conf struct {
 	extra     string // "", "unknown-id", "push", "oneway-type", "stale-id"
 	// delay of the reply to caller 0 relative to its deadline: "", "before", "at", "after"
 	delay0 string
+	// seq > 0: one caller issues seq calls one after the other; every reply is sent dup times
+	seq int
+	dup int
 }
 
 func perms(n int) [][]int {
@@ -69,23 +72,33 @@ func scenario(c conf) *vm.Scenario {
 		vm.GoNamed("server", func() { server(c, ln, start) })
 		sp := tars.NewServantProxy(comm, obj)
 		done := make(chan struct{}, c.callers)
+		rounds := 1
+		if c.seq > 0 {
+			rounds = c.seq
+		}
 		for i := 0; i < c.callers; i++ {
 			i := i
 			vm.GoNamed(fmt.Sprintf("caller%d", i), func() {
-				var resp requestf.ResponsePacket
-				payload := []byte{0xA0 + byte(i), byte(i)}
-				err := sp.TarsInvoke(context.Background(), 0, "echo", payload, nil, nil, &resp)
-				switch {
-				case err == nil:
-					b := make([]byte, len(resp.SBuffer))
-					for k, v := range resp.SBuffer {
-						b[k] = byte(v)
+				for round := 0; round < rounds; round++ {
+					var resp requestf.ResponsePacket
+					payload := []byte{0xA0 + byte(i), byte(i)}
+					if c.seq > 0 {
+						i = round
+						payload = []byte{0xA0 + byte(round), byte(round)}
 					}
-					vm.Log("caller %d ok id=%d payload=%x t=%dms", i, resp.IRequestId, b, (vm.Now()-start)/1e6)
-				case strings.Contains(err.Error(), "request timeout"):
-					vm.Log("caller %d timeout t=%dms", i, (vm.Now()-start)/1e6)
-				default:
-					vm.Log("caller %d error %v", i, err)
+					err := sp.TarsInvoke(context.Background(), 0, "echo", payload, nil, nil, &resp)
+					switch {
+					case err == nil:
+						b := make([]byte, len(resp.SBuffer))
+						for k, v := range resp.SBuffer {
+							b[k] = byte(v)
+						}
+						vm.Log("caller %d ok id=%d payload=%x t=%dms", i, resp.IRequestId, b, (vm.Now()-start)/1e6)
+					case strings.Contains(err.Error(), "request timeout"):
+						vm.Log("caller %d timeout t=%dms", i, (vm.Now()-start)/1e6)
+					default:
+						vm.Log("caller %d error %v", i, err)
+					}
 				}
 				vm.Send(done, struct{}{})
 			})
@@ -141,6 +154,17 @@ func server(c conf, ln vnet.Listener, start int64) {
 			})
 		}
 	})
+	if c.seq > 0 {
+		for n := 0; n < c.seq; n++ {
+			r := vm.Recv(in)
+			pkt := (&tnet.Response{Version: r.q.Version, PacketType: 0, ID: r.q.ID, Buffer: r.q.Buffer, Status: map[string]string{}}).Encode()
+			for k := 0; k < c.dup; k++ {
+				r.conn.Write(pkt)
+			}
+			vm.Log("server replied id=%d x%d", r.q.ID, c.dup)
+		}
+		return
+	}
 	var reqs []*tnet.Request
 	conns := map[*tnet.Request]*vnet.TCPConn{}
 	for len(reqs) < c.callers {
@@ -268,7 +292,11 @@ func check(c conf, r *vm.Result) string {
 			msgs = append(msgs, "resources-left-after-calls-returned\n"+o)
 		}
 	}
-	if seen != c.callers {
+	want := c.callers
+	if c.seq > 0 {
+		want = c.seq
+	}
+	if seen != want {
 		msgs = append(msgs, "caller-did-not-return")
 	}
 	if len(msgs) == 0 {
@@ -353,6 +381,10 @@ func main() {
 		add(conf{name: "2 callers reply0 " + d + " deadline dup", callers: 2, timeout: 300, quiet: true, delay0: d, dupFirst: true, allOrders: true}, 1, false)
 	}
 	add(conf{name: "2 callers reply0 at deadline", callers: 2, timeout: 300, quiet: true, delay0: "at"}, deep, true)
+	for _, dup := range []int{2, 3} {
+		add(conf{name: fmt.Sprintf("sequential calls, every reply x%d", dup), callers: 1, timeout: 300, quiet: true, seq: 3, dup: dup}, 1, false)
+		add(conf{name: fmt.Sprintf("sequential calls, every reply x%d", dup), callers: 1, timeout: 300, quiet: true, seq: 2, dup: dup}, deep, true)
+	}
 	maxI := int32(1<<31 - 1)
 	for _, s := range []int32{maxI - 2, maxI - 1, maxI, -3, -2, -1, 0} {
 		cases = append(cases, e1.Case{Sc: genScenario(s, 2, 2), Opt: vm.Options{Bound: -1, Prune: true}, Budget: budget, MinOutcomes: 1})
